@@ -185,7 +185,7 @@ def run(pid, tier, seed, replay=None):
     if thorough:
         cases = gen(chk, 'gen', seed, GenPart='"abh"', NScrub=0, NDb=300, NFind=40, NPages_=8, NFacet=8, NHist=200, NHSteps=40)
     else:
-        cases = gen(chk, 'gen', seed, GenPart='"abh"', NScrub=3000, NDb=24, NFind=20, NPages_=4, NFacet=4, NHist=24, NHSteps=24)
+        cases = gen(chk, 'gen', seed, GenPart='"abh"', NScrub=3000, NDb=24, NFind=20, NPages_=4, NFacet=4, NHist=30, NHSteps=24)
     scrub_cases = [c for c in cases if c['kind'] == 'a']
     db_cases = [c for c in cases if c['kind'] == 'b']
     hist_cases = [c for c in cases if c['kind'] == 'h']
